@@ -116,29 +116,33 @@ structure LoadSt where
   count  : Nat
   deriving Repr, Inhabited
 
-/-- _mod_load_dynamic + _mod_register for one object that passed the security tests -/
+/-- _mod_register (after _is_loaded): the new module list and whether the module was loaded.
+    An existing module with the same type and name is deleted iff the new priority is higher;
+    only after that the personality is looked at. -/
+def register (pers : Nat) (mods : List Mod) (fname : Str) (d : Desc) : List Mod × Bool :=
+  if mods.any (·.file == fname) then (mods, false)               -- _is_loaded
+  else
+    match d.type, d.name with
+    | some t, some n =>
+      match mods.find? (sameKey t n) with
+      | some prev =>
+        if d.prio > prev.prio then
+          let mods' := mods.filter (!sameKey t n ·)               -- _mod_delete
+          if d.pers &&& pers = 0 then (mods', false)
+          else (⟨fname, t, n, d.prio, d, false⟩ :: mods', true)   -- list_prepend
+        else (mods, false)
+      | none =>
+        if d.pers &&& pers = 0 then (mods, false)
+        else (⟨fname, t, n, d.prio, d, false⟩ :: mods, true)
+    | _, _ => (mods, false)
+
+/-- _mod_load_dynamic for one object that passed the security tests -/
 def loadObj (pers : Nat) (s : LoadSt) (fname : Str) (obj : Obj) : LoadSt :=
-  let s := { s with opened := s.opened ++ [fname] }
   match obj with
-  | .noload => s
-  | .noinfo => s
   | .mod d =>
-    if s.mods.any (·.file == fname) then s            -- _is_loaded
-    else
-      match d.type, d.name with
-      | some t, some n =>
-        -- an existing module with the same type and name is deleted iff the new priority is higher
-        let step : Option (List Mod) :=
-          match s.mods.find? (sameKey t n) with
-          | some prev => if d.prio > prev.prio then some (s.mods.filter (!sameKey t n ·)) else none
-          | none => some s.mods
-        match step with
-        | none => s
-        | some mods' =>
-          -- only now the personality is looked at: the deletion above has already happened
-          if d.pers &&& pers = 0 then { s with mods := mods' }
-          else { s with mods := ⟨fname, t, n, d.prio, d, false⟩ :: mods', count := s.count + 1 }
-      | _, _ => s
+    let r := register pers s.mods fname d
+    ⟨r.1, s.opened ++ [fname], if r.2 then s.count + 1 else s.count⟩
+  | _ => ⟨s.mods, s.opened ++ [fname], s.count⟩
 
 def loadFile (uid owner pers : Nat) (s : LoadSt) (f : File) : LoadSt :=
   match f.st with
@@ -189,47 +193,45 @@ def rowChars (pers : Nat) (rows : List OptRow) : Str :=
 def rowsClash (pers : Nat) (opts : Str) (rows : List OptRow) : Bool :=
   rows.any fun r => r.pers &&& pers ≠ 0 && opts.contains r.c
 
-/-- `none` = refused (nothing registered), else the grown option string -/
+/-- `none` = refused (nothing registered), else the characters appended to the option string -/
 def optRegister (pers : Nat) (opts : Str) (table : Option (List OptRow)) : Option Str :=
   match table with
-  | none => some opts
-  | some rows => if rowsClash pers opts rows then none else some (opts ++ rowChars pers rows)
+  | none => some []
+  | some rows => if rowsClash pers opts rows then none else some (rowChars pers rows)
 
 structure InitSt where
   opts  : Str                       -- pdsh_options
   calls : List Str                  -- files whose init function was called, in order
+  regs  : List (Str × Str)          -- ghost trace: (file, characters appended) per successful opt_register
   deriving Repr, DecidableEq, Inhabited
 
 /-- _mod_initialize -/
 def initOne (pers : Nat) (m : Mod) (s : InitSt) : Mod × InitSt :=
   match optRegister pers s.opts m.d.opts with
   | none => (m, s)
-  | some opts' =>
+  | some added =>
+    let opts' := s.opts ++ added
+    let regs' := s.regs ++ [(m.file, added)]
     match m.d.init with
-    | none => ({ m with active := true }, { s with opts := opts' })
+    | none => ({ m with active := true }, ⟨opts', s.calls, regs'⟩)
     | some ok =>
       -- the options stay registered even when init fails
-      let s' : InitSt := ⟨opts', s.calls ++ [m.file]⟩
+      let s' : InitSt := ⟨opts', s.calls ++ [m.file], regs'⟩
       if ok then ({ m with active := true }, s') else (m, s')
 
 /-- list_find_first + _mod_initialize -/
 def initFirst (pers : Nat) (p : Mod → Bool) : List Mod → InitSt → List Mod × InitSt
   | [], s => ([], s)
   | m :: rest, s =>
-    if p m then
-      let (m', s') := initOne pers m s
-      (m' :: rest, s')
-    else
-      let (r, s') := initFirst pers p rest s
-      (m :: r, s')
+    if p m then ((initOne pers m s).1 :: rest, (initOne pers m s).2)
+    else (m :: (initFirst pers p rest s).1, (initFirst pers p rest s).2)
 
 /-- list_for_each (module_list, _mod_init_list_safe): every module, already initialised or not -/
 def initAll (pers : Nat) : List Mod → InitSt → List Mod × InitSt
   | [], s => ([], s)
   | m :: rest, s =>
-    let (m', s') := initOne pers m s
-    let (r, s'') := initAll pers rest s'
-    (m' :: r, s'')
+    ((initOne pers m s).1 :: (initAll pers rest (initOne pers m s).2).1,
+     (initAll pers rest (initOne pers m s).2).2)
 
 /-! list_split (",", names): separators inside brackets do not split; empty tokens are dropped -/
 
@@ -270,12 +272,22 @@ where
 
 def miscType : Str := "misc".toList
 
+def isMisc (nm : Str) (m : Mod) : Bool := m.type == miscType && m.name == nm
+
 /-- _mod_initialize_modules_by_name -/
 def initByNames (pers : Nat) : List Str → List Mod → InitSt → List Mod × InitSt
   | [], l, s => (l, s)
   | nm :: rest, l, s =>
-    let (l', s') := initFirst pers (fun m => m.type == miscType && m.name == nm) l s
-    initByNames pers rest l' s'
+    initByNames pers rest (initFirst pers (isMisc nm) l s).1 (initFirst pers (isMisc nm) l s).2
+
+def miscNames : Option Str → List Str
+  | none => []
+  | some s => splitNames s
+
+/-- the two initialisation passes of mod_load_modules on the sorted list -/
+def initPhase (pers : Nat) (misc : Option Str) (sorted : List Mod) : List Mod × InitSt :=
+  initAll pers (initByNames pers (miscNames misc) sorted ⟨baseOpts pers, [], []⟩).1
+    (initByNames pers (miscNames misc) sorted ⟨baseOpts pers, [], []⟩).2
 
 structure Result where
   fatal  : Bool                     -- exit status 1 before anything else happens
@@ -283,26 +295,22 @@ structure Result where
   calls  : List Str
   opts   : Str                      -- final pdsh_options
   opened : List Str
+  regs   : List (Str × Str)         -- ghost trace of the successful registrations
   deriving Repr, DecidableEq, Inhabited
 
 /-- mod_load_modules on the chosen directory -/
 def loadDir (e : Env) (d : Dir) : Result :=
   let base := baseOpts e.pers
   match e.owner with
-  | none => ⟨true, [], [], base, []⟩
+  | none => ⟨true, [], [], base, [], []⟩
   | some owner =>
-    if !pathOk e.uid owner d.path then ⟨true, [], [], base, []⟩
+    if !pathOk e.uid owner d.path then ⟨true, [], [], base, [], []⟩
     else
       let ls := loadFiles e.uid owner e.pers d.files
-      if ls.count = 0 then ⟨true, [], [], base, ls.opened⟩
+      if ls.count = 0 then ⟨true, [], [], base, ls.opened, []⟩
       else
-        let sorted := listSort cmpF ls.mods
-        let names := match e.misc with
-          | none => []
-          | some s => splitNames s
-        let (l1, s1) := initByNames e.pers names sorted ⟨base, []⟩
-        let (l2, s2) := initAll e.pers l1 s1
-        ⟨false, l2, s2.calls, s2.opts, ls.opened⟩
+        let r := initPhase e.pers e.misc (listSort cmpF ls.mods)
+        ⟨false, r.1, r.2.calls, r.2.opts, ls.opened, r.2.regs⟩
 
 def loadAll (e : Env) : Result := loadDir e (chooseDir e)
 
